@@ -23,6 +23,9 @@ class FT:
 
 def ft_A(k):
     return FT('A<%d>' % k, ['A(0)', 'A(1)', 'A(7)'])
+def ft_Nt():
+    # implements NONE of PartialEq / Eq / PartialOrd / Ord / Hash / Clone: only an ignored or method-handled field can have it
+    return FT('Nt', ['Nt(0)', 'Nt(1)', 'Nt(7)'])
 def ft_C(k):
     return FT('C<%d>' % k, ['C(0)', 'C(1)', 'C(2)'])
 NATIVE = [FT('bool', ['false', 'true'], native=True), FT('char', ["'a'", "'z'"], native=True),
@@ -183,7 +186,7 @@ def values_fn(t, r, cap=48, refs=False):
                     if m:
                         fs.append((key, ('R', 1000 * int(m.group(1)) + int(re.search(r'A\((\d+)\)', e).group(1)))))
                         continue
-                    k = int(f.ft.rust[2:-1]); x = int(e[2:-1])
+                    k = 9 if f.ft.rust == 'Nt' else int(f.ft.rust[2:-1]); x = int(e[e.index('(') + 1:-1])
                     fs.append((key, 1000 * k + x))
                 t.xvalues.append((v.name, fs))
     if not atoms:
@@ -296,7 +299,7 @@ def module(t, body, nvals):
     if NOISE[0] is not None and not getattr(t, '_noised', False):
         t._noised = True
         add_noise(t, NOISE[0][1], NOISE[0][0])
-    ty = ('pub mod ty {\n    #![deny(warnings)]\n    #![allow(dead_code, unused_imports, non_snake_case)]\n    use crate::support::{A, B, C, N, Fl, Off, Good, Bad, Half, g_clone, g_default, g_into, m_eq, m_eqv, m_cmp, m_pcmp, m_hash, m_fmt, m_clone, m_clone_c, m_into, m_same, Mk, g_eq, g_cmp, g_pcmp, g_hash, g_fmt};\n'
+    ty = ('pub mod ty {\n    #![deny(warnings)]\n    #![allow(dead_code, unused_imports, non_snake_case)]\n    use crate::support::{A, B, C, N, Nt, Fl, Off, Good, Bad, Half, g_clone, g_default, g_into, m_eq, m_eqv, m_cmp, m_pcmp, m_hash, m_fmt, m_clone, m_clone_c, m_into, m_same, Mk, g_eq, g_cmp, g_pcmp, g_hash, g_fmt};\n'
           '    use educe::Educe;\n%s%s\n}\npub use ty::T;' % (HOSTILE_ITEMS if HOSTILE[0] else '', type_decl(t)))
     return ('// %s\n#![allow(dead_code, unused_variables, unused_mut, unused_imports, non_shorthand_field_patterns, clippy::all)]\n'
             'use crate::support::*;\nuse core::cmp::Ordering;\n%s\n%s\n' % (t.id, ty, body))
@@ -357,8 +360,12 @@ class EqSuite(Suite):
                 tr = 'Eq' if (use_eq and r.random() < 0.4) else 'PartialEq'
                 if c < 0.3:
                     f.at['eq'] = 'ignore'; f.at['_metas'] = [sp_ignore(r, tr) if r.random() < 0.75 else sp_ignore_with_method(r, tr, 'm_eq')]
+                    if r.random() < 0.3:
+                        f.ft = ft_Nt()
                 elif c < 0.55:
                     f.at['eq'] = 'method'; f.at['_metas'] = [sp_method(r, tr, 'm_eq')]
+                    if r.random() < 0.3:
+                        f.ft = ft_Nt()
                 else:
                     f.at['eq'] = 'plain'
                     if r.random() < 0.15:
@@ -398,9 +405,13 @@ class HashSuite(Suite):
                 if c < 0.3:
                     f.at['h'] = 'ignore'; f.at['_metas'] = [sp_ignore(r, 'Hash') if r.random() < 0.7 else sp_ignore_with_method(r, 'Hash', 'm_hash')]
                     eqm = sp_ignore(r, 'PartialEq')
+                    if r.random() < 0.3:
+                        f.ft = ft_Nt()
                 elif c < 0.55:
                     f.at['h'] = 'method'; f.at['_metas'] = [sp_method(r, 'Hash', 'm_hash')]
                     eqm = sp_method(r, 'PartialEq', 'm_eqv')
+                    if r.random() < 0.3:
+                        f.ft = ft_Nt()
                 else:
                     f.at['h'] = 'plain'
                     if r.random() < 0.25:
@@ -1061,7 +1072,8 @@ class UnionSuite(Suite):
                 fs[dfield].at['_metas'] = [sp_default_value(r, val)]
                 if fs[dfield].ft.rust == 'Off' and r.random() < 0.6:
                     fs[dfield].at['_metas'] = [pick(r, ['Default(expression(%s))', 'Default(expr(%s))', 'Default(expression(%s), )']) % val]
-            ta.append('Default')
+            union_new = r.random() < 0.4
+            ta.append(pick(r, ['Default(new)', 'Default(new = true)']) if union_new else 'Default')
         r.shuffle(ta)
         t.type_attrs = [', '.join(ta)]
         big = max(f.size for f in fs)
@@ -1087,6 +1099,11 @@ class UnionSuite(Suite):
             checks.append('{ let d = <T as ::core::default::Default>::default(); let e = T { %s: %s }; let n = ::core::mem::size_of::<%s>();'
                           ' out.check(bytes(&d)[..n] == bytes(&e)[..n], "%s", "union_default", || format!("default() initialised {:?} expected field %s = {:?}", &bytes(&d)[..n], &bytes(&e)[..n])); }'
                           % (f.name, f.dval or '::core::default::Default::default()', f.ft.rust, tid, f.name))
+            if union_new:
+                checks.append('{ let d = T::new(); let e = <T as ::core::default::Default>::default(); let n = ::core::mem::size_of::<%s>();'
+                              ' out.check(bytes(&d)[..n] == bytes(&e)[..n], "%s", "union_default", || format!("new() initialised {:?} but default() {:?}", &bytes(&d)[..n], &bytes(&e)[..n])); }' % (f.ft.rust, tid))
+                if r.random() < 0.5:
+                    fns.append('impl T { pub fn default() -> T { mk(9) } }     // an inherent `default` at the derive site')
         fns.append('pub fn run(out: &mut Out) { %s }' % ' '.join(checks))
         return t, module(t, '\n'.join(fns), 6), dict(values=6, traits=traits)
 
@@ -1129,8 +1146,19 @@ class BoundsSuite(Suite):
             if trait != 'Default':
                 forms.append("&'static %s")      # `&X: Clone / Copy` holds for every X; `&X: Debug / PartialEq / ...` iff X does
             return FT(pick(r, forms) % p, [])
-        kinds = ('struct',) if trait == 'Default' else ('struct', 'enum')
-        t = gen_shape(r, tid, kinds=kinds, ftgen=ftgen, unit_ok=(trait not in ('Default',)), maxf=3)
+        kinds = ('struct', 'enum')
+        t = gen_shape(r, tid, kinds=kinds, ftgen=ftgen, unit_ok=(trait not in ('Default',) or True), maxf=3)
+        dvar = None
+        type_expr = False
+        if trait == 'Default':
+            if t.kind == 'enum':
+                dvar = pick(r, t.variants)
+                if len(t.variants) > 1 or r.random() < 0.5:
+                    dvar.at['_metas'] = ['Default']
+            # a type-level expression: no field is defaulted at all
+            type_expr = r.random() < 0.2
+            if type_expr and dvar is not None:
+                dvar.at.pop('_metas', None)
         for v in t.variants:
             for f in v.fields:
                 f.param = re.search(r'[XYZ]', f.ft.rust).group(0)
@@ -1148,8 +1176,10 @@ class BoundsSuite(Suite):
                     f.at['_metas'] = [sp_ignore(r, trait)]; deleg = False
                 elif info['method'] and c < 0.55:
                     f.at['_metas'] = [sp_method(r, trait, info['method'])]; deleg = False
-                elif info.get('expr') and c < 0.5:
+                elif info.get('expr') and c < 0.5 and not type_expr and (dvar is None or v is dvar):
                     f.at['_metas'] = [pick(r, ['Default(expression = %s)', 'Default(expr(%s))']) % info['expr']]; deleg = False
+                if trait == 'Default' and (type_expr or (dvar is not None and v is not dvar)):
+                    deleg = False                      # only the fields of the default variant are defaulted; none under a type-level expression
                 if deleg and not (f.ft.rust.startswith('&') and trait in ('Clone', 'Copy')):
                     needed.add(f.param)
         if trait == 'Debug' and t.kind == 'enum':
@@ -1173,6 +1203,11 @@ class BoundsSuite(Suite):
                       'Default': '::core::default::Default'}[trait]
             preds = ', '.join('%s: %s' % (p, btrait) for p in want)
             tparam = [pick(r, ['bound(%s)', 'bound = "%s"']) % preds]; needed = set(want)
+        if type_expr:
+            tparam.append(pick(r, ['expression = g_default()', 'expr(g_default())']))
+        if trait == 'Default' and r.random() < 0.3:
+            tparam.append('new')
+        r.shuffle(tparam)
         t.type_attrs = ['%s(%s)' % (trait, ', '.join(tparam))] if tparam else [trait]
         refp = set(f.param for v in t.variants for f in v.fields if f.ft.rust.startswith('&'))
         t.generic = [p_ + (": 'static" if p_ in refp else '') for p_ in params]
